@@ -41,6 +41,17 @@ void Issue::IssueImpl::setReferenceRule(Issue::ReferenceRule referenceRule)
     mReferenceRule = referenceRule;
 }
 
+#ifdef HSORBY_LIBCELLML_VERIF
+IssuePtr Issue::verifCreate(Issue::ReferenceRule referenceRule, Issue::Level level, const std::string &description)
+{
+    auto issue = IssueImpl::create();
+    issue->mPimpl->setReferenceRule(referenceRule);
+    issue->mPimpl->setLevel(level);
+    issue->mPimpl->setDescription(description);
+    return issue;
+}
+#endif
+
 Issue::Issue()
     : mPimpl(new IssueImpl())
 {
